@@ -43,7 +43,9 @@ func isASCII(s string) bool {
 }
 
 func c16Gaps(o *out, r *rng, kind string, allGaps bool) {
-	g := &gen{r: r, plain: true}
+	// every other statement is written with a blank at every boundary that allows one, so that the gaps before commas,
+	// inside parentheses and around dots and operators are gaps of the text too
+	g := &gen{r: r, plain: true, wide: r.chance(1, 2)}
 	st := g.statement(kind)
 	_ = st
 	text := g.join()
